@@ -41,6 +41,48 @@ def _mk():
 _mk()
 
 
+KEYWORDS = {'as', 'break', 'const', 'continue', 'crate', 'else', 'enum', 'extern', 'false', 'fn', 'for', 'if', 'impl', 'in', 'let', 'loop', 'match', 'mod', 'move', 'mut', 'pub', 'ref', 'return', 'self', 'Self',
+            'static', 'struct', 'super', 'trait', 'true', 'type', 'unsafe', 'use', 'where', 'while', 'async', 'await', 'dyn', 'abstract', 'become', 'box', 'do', 'final', 'macro', 'override', 'priv',
+            'typeof', 'unsized', 'virtual', 'yield', 'try', 'env', 'rng', 'update'}
+_dict_done = set()
+
+
+def dictionary_shapes(repo):
+    """White-box shapes: every short string literal of the macro crate's own source (a word the macro could be comparing attributes, names or types
+    against) is planted in a doc comment, a #[doc] attribute, an #[allow] lint name position and - when it is an identifier - as a field name.
+    Generated on every run from the working tree, so a newly introduced special case in the macro brings its own trigger word along."""
+    src_p = os.path.join(repo, 'crates', 'macros', 'src', 'lib.rs')
+    try:
+        src = open(src_p).read()
+    except OSError:
+        return []
+    words = []
+    for m in re.finditer(r'"((?:[^"\\]|\\.){1,24})"', src):
+        w = m.group(1)
+        if re.fullmatch(r'[A-Za-z_][A-Za-z0-9_ ]{0,23}', w) and w not in words:
+            words.append(w)
+    # identifiers the macro source compares with `==` / is_ident(..) / contains(..) are already literals; cap the family
+    words = words[:12]
+    added = []
+    for k, w in enumerate(words):
+        if (repo, w) in _dict_done:
+            continue
+        _dict_done.add((repo, w))
+        ident = re.sub(r'\W', '_', w.strip())
+        fname = ident if (re.fullmatch(r'[a-z_][a-z0-9_]*', ident) and ident not in KEYWORDS) else 'plain%d' % k
+        fields = [('', '', 'first', 'A'),
+                  ('/// %s: this member %s a step now and then (%s)\n    ' % (w, w, w), 'pub ', 'documented', 'B'),
+                  ('#[doc = "%s"]\n    ' % w, '', 'attributed', 'C'),
+                  ('', '', fname, 'A'),
+                  ('', '', 'last', 'D')]
+        for macro, member in (('AgentSet', 'Agent'), ('MarketAgentSet', 'MarketAgent')):
+            sh = {'name': ('M' if macro.startswith('Market') else 'S') + 'Dict%d' % k, 'macro': macro, 'member': member, 'fields': fields, 'oneline': False, 'dictionary_word': w}
+            if not any(x['name'] == sh['name'] for x in SHAPES):
+                SHAPES.append(sh)
+                added.append(sh['name'])
+    return added
+
+
 def shape_source():
     out = ['#![allow(dead_code, unused)]', 'use bourse_macros::{AgentSet, MarketAgentSet};']
     for s in SHAPES:
@@ -58,6 +100,7 @@ def shape_source():
 
 
 def expand(repo, workdir):
+    dictionary_shapes(repo)
     os.makedirs(os.path.join(workdir, 'src'), exist_ok=True)
     with open(os.path.join(workdir, 'Cargo.toml'), 'w') as f:
         f.write('[package]\nname = "derive_shapes"\nversion = "0.1.0"\nedition = "2021"\n[workspace]\n[dependencies]\nbourse-macros = { path = "%s/crates/macros" }\n' % repo)
